@@ -360,7 +360,7 @@ theorem wired_has_defined_appender {cfg : Config} (wf : cfg.WF) {l : Logger} (hl
 /-- the code's winner is the most specific matching *wired* logger -/
 theorem winnerOf_some {cfg : Config} (wf : cfg.WF) {ev : Event} {p : Name} {add : Bool}
     (h : winnerOf cfg ev = some (p, add)) :
-    ∃ l ∈ cfg.loggers, matchesB l ev = true ∧ l.name = p ∧ l.additive = add ∧
+    ∃ l ∈ cfg.loggers, matchesB l ev = true ∧ Wired l ∧ l.name = p ∧ l.additive = add ∧
       ∀ l' ∈ cfg.loggers, matchesB l' ev = true → Wired l' → l'.name.length ≤ p.length := by
   unfold winnerOf pickWinner at h
   obtain ⟨hsrc, _, hmax⟩ := foldl_winner_some h
@@ -370,7 +370,8 @@ theorem winnerOf_some {cfg : Config} (wf : cfg.WF) {ev : Event} {p : Name} {add 
     obtain ⟨a, ha, hr⟩ := h1
     obtain ⟨l, ⟨hl, hm, hal, _⟩, hrl⟩ := ruleOf_some hr
     simp only [ruleOfLogger, Prod.mk.injEq] at hrl
-    refine ⟨l, hl, hm, hrl.1.symm, hrl.2.2.symm, ?_⟩
+    have hlw : Wired l := fun hnil => by rw [hnil] at hal; cases hal
+    refine ⟨l, hl, hm, hlw, hrl.1.symm, hrl.2.2.symm, ?_⟩
     intro l' hl' hm' hw'
     obtain ⟨b, hbl, hb⟩ := wired_has_defined_appender wf hl' hw'
     obtain ⟨l2, hl2, ⟨hm2, hb2⟩, hmax2⟩ :=
@@ -402,12 +403,38 @@ theorem winnerOf_of_overall {cfg : Config} (wf : cfg.WF) {ev : Event} {w : Logge
   | none => exact absurd hwired (winnerOf_none wf hwin w hwl hwm)
   | some pa =>
     obtain ⟨p, add⟩ := pa
-    obtain ⟨l, hl, hm, hn, hadd, hmax⟩ := winnerOf_some wf hwin
+    obtain ⟨l, hl, hm, _, hn, hadd, hmax⟩ := winnerOf_some wf hwin
     have h1 := hmax w hwl hwm hwired
     have h2 := hwmax l hl hm
     have : l = w := logger_unique wf hl hwl hm hwm (by rw [hn] at h2 ⊢; omega)
     subst this
     rw [hn, hadd]
+
+/-- in general (F12a included): the code's winner is the most specific matching logger among
+those that name at least one appender -/
+theorem winnerOf_of_wiredMost {cfg : Config} (wf : cfg.WF) {ev : Event} {w : Logger}
+    (hwl : w ∈ cfg.loggers) (hwm : matchesB w ev = true) (hwired : Wired w)
+    (hwmax : ∀ l' ∈ cfg.loggers, matchesB l' ev = true → Wired l' → l'.name.length ≤ w.name.length) :
+    winnerOf cfg ev = some (w.name, w.additive) := by
+  cases hwin : winnerOf cfg ev with
+  | none => exact absurd hwired (winnerOf_none wf hwin w hwl hwm)
+  | some pa =>
+    obtain ⟨p, add⟩ := pa
+    obtain ⟨l, hl, hm, hlw, hn, hadd, hmax⟩ := winnerOf_some wf hwin
+    have h1 := hmax w hwl hwm hwired
+    have h2 := hwmax l hl hm hlw
+    have : l = w := logger_unique wf hl hwl hm hwm (by rw [hn] at h2 ⊢; omega)
+    subst this
+    rw [hn, hadd]
+
+theorem winnerOf_none_of_no_wired_match {cfg : Config} (wf : cfg.WF) {ev : Event}
+    (h : ∀ l ∈ cfg.loggers, matchesB l ev = true → ¬ Wired l) : winnerOf cfg ev = none := by
+  cases hwin : winnerOf cfg ev with
+  | none => rfl
+  | some pa =>
+    obtain ⟨p, add⟩ := pa
+    obtain ⟨l, hl, hm, hlw, _⟩ := winnerOf_some wf hwin
+    exact absurd hlw (h l hl hm)
 
 theorem winnerOf_none_of_no_match {cfg : Config} (wf : cfg.WF) {ev : Event}
     (h : ∀ l ∈ cfg.loggers, matchesB l ev = false) : winnerOf cfg ev = none := by
